@@ -914,4 +914,60 @@ Section AllocInv.
       apply ascend_frame; [reflexivity|cbn [achildren]; lia|exact H].
   Qed.
 
+  (* ---------------------------------------------------------------- zix_btree_remove: the descent *)
+  Lemma aremove_down_frame : forall h s (n : anode) e R,
+    kids_ok L I h (erase n) -> asc (elements (erase n)) -> strong elt L I (erase n) ->
+    owns s (pages n ++ R) ->
+    let r := aremove_down rank dflt L I h s n e in owns (ar_ast r) (pages (ar_node r) ++ R).
+  Proof.
+    induction h as [|h IH]; intros s n e R Hk Hasc Hs O; [exact (False_ind _ Hk)|].
+    destruct n as [id vs|id vs cs]; cbv zeta.
+    - cbn [aremove_down]. destruct (find_value dflt (cmpk rank e) vs) as [[i eq] lg].
+      destruct eq; cbn [negb]; [|exact O].
+      destruct (length (aerase vs i) =? 0); [exact O|]. destruct (i =? length (aerase vs i)); exact O.
+    - cbn [erase] in Hk, Hasc, Hs. cbn [kids_ok] in Hk. destruct Hk as (Hh & Hl & Hf).
+      assert (HP : PK L I h vs (map erase cs)) by (split; assumption).
+      assert (Hvs : 1 <= length vs) by (cbn [strong] in Hs; lia).
+      assert (Hlc : length cs = S (length vs)) by (rewrite map_length in Hl; exact Hl).
+      pose proof (B3 cmpk_mono e _ Hasc) as Hmono.
+      pose proof (B3 find_value_spec (cmpk rank e) vs (B3 mono_vals _ vs (map erase cs) Hl Hmono)) as Hfv.
+      assert (Rec : forall j s1 (n1 : anode), step_ok h s1 n1 j R -> asc (elements (erase (achild n1 j))) ->
+                let r := aremove_down rank dflt L I h s1 (achild n1 j) e in
+                owns (ar_ast r) (pages (aplug n1 j (ar_node r)) ++ R)).
+      { intros j s1 n1 St Ha1. cbv zeta. pose proof St as (_ & _ & _ & Wc & Nc & _).
+        pose proof (IH s1 (achild n1 j) e (prest n1 j ++ R) (B7 wfn_kids_ok _ _ Wc) Ha1
+                      (B7 strong_of_min h _ Wc Nc) (step_down _ _ _ _ _ St)) as H. cbv zeta in H.
+        eapply step_use; eauto. }
+      cbn [aremove_down].
+      destruct (find_value dflt (cmpk rank e) vs) as [[i eq] lg].
+      destruct Hfv as (Hi & Ht & _).
+      destruct eq.
+      + destruct (Ht eq_refl) as [Hi' _].
+        pose proof (areplace_value_frame h s id vs cs i R HP Hi' O) as Hrv.
+        destruct (areplace_value dflt L I h s (AInode id vs cs) i) as [[[out n']|] s1].
+        * cbn [ar_ast ar_node]. exact Hrv.
+        * destruct Hrv as (-> & Ec0 & Ec1).
+          destruct (amerge dflt s (AInode id vs cs) i) as [n1 s2] eqn:Em.
+          destruct (step_merge h s id vs cs i n1 s2 R HP Hi' Ec0 Ec1 Em O) as (St & _ & Ha1).
+          cbn [ar_ast ar_node]. apply (Rec i s2 n1 St (Ha1 Hasc)).
+      + destruct (acan_remove_from L I (nth i cs adnode)) eqn:Ec.
+        * cbn [ar_ast ar_node].
+          pose proof (step_direct h s id vs cs i R HP Hi Hvs Ec O) as St.
+          pose proof (Rec i s _ St) as H. unfold achild in H. cbn [achildren] in H.
+          rewrite <- (E5 nth_erase) in H.
+          specialize (H (B3 asc_child vs (map erase cs) i Hl Hi Hasc)).
+          cbv zeta in H. rewrite aplug_eq in H by (cbn [avals]; lia). exact H.
+        * destruct (afatten_child dflt L I s (AInode id vs cs) i) as [[n1 i'] s1] eqn:Ef.
+          pose proof (step_fatten h s id vs cs i n1 i' s1 R HP Hi Hvs Ec Ef O) as St.
+          pose proof (E5 erase_fatten_child s (AInode id vs cs) i) as HE. rewrite Ef in HE. destruct HE as [HE _].
+          cbn [erase] in HE.
+          rewrite <- (E5 acan_remove_from_erase), <- (E5 nth_erase) in Ec.
+          destruct (B7 fatten_child_spec h vs (map erase cs) i HP Hi Hs Ec)
+            as (vs1 & cs1 & i'' & Ef' & HP1 & Hi'' & H1 & Hlen & Hmin & Eel & _).
+          rewrite HE in Ef'. apply pair_equal_spec in Ef' as [En1 <-].
+          destruct (erase_child_of n1 vs1 cs1 i' En1) as (Ec1 & _ & _).
+          cbn [ar_ast ar_node]. apply (Rec i' s1 n1 St). rewrite Ec1.
+          apply (B3 asc_child vs1 cs1 i'); [destruct HP1; assumption|exact Hi''|rewrite Eel; exact Hasc].
+  Qed.
+
 End AllocInv.
